@@ -655,3 +655,47 @@ package raft
 //@   ensures result != nil && fresh(result) && result.storage == storage && len(result.unstable.entries) == 0 && result.unstable.snapshot == nil
 //@   ensures result.unstable.offset == ghost(slast, storage) + 1 && result.committed == ghost(sfirst, storage) - 1 && result.applied == ghost(sfirst, storage) - 1
 //@   ensures lOK(result)
+
+// ---- start-up (C01): the replica rebuilt from storage has the persisted membership and hard state ----
+// ghost(hsterm/hsvote/hscommit, s): the persisted hard state; ghost(csvoters/cslearners, s): sizes of the persisted
+// voter / learner configuration (ConfState.Nodes / Learners).  A restarted replica
+//  - remembers its term and its vote (it can never vote twice in a term it voted in before the restart),
+//  - takes its voters from the persisted voter list only (never more voters than persisted; a persisted learner
+//    is a learner: not in prs, flagged isLearner when it is this replica), and no replica is voter and learner.
+//@ property C01
+//@ interface (github.com/youzan/ZanRedisDB/raft.Storage).InitialState func(s Storage) (pb.HardState, pb.ConfState, error)
+//@   ensures result0.Term == ghost(hsterm, s) && result0.Vote == ghost(hsvote, s) && result0.Commit == ghost(hscommit, s)
+//@   ensures len(result1.Nodes) == ghost(csvoters, s) && len(result1.Learners) == ghost(cslearners, s)
+//@   ensures forall k int :: 0 <= k && k < len(result1.Groups) ==> result1.Groups[k] != nil
+//@   ensures forall k int :: 0 <= k && k < len(result1.LearnerGroups) ==> result1.LearnerGroups[k] != nil
+//@   ensures result2 == nil ==> ghost(sfirst, s) - 1 <= result0.Commit && result0.Commit <= ghost(slast, s)
+//@ func (c *Config) validate() error
+//@   trusted fills defaults of limits and the logger; identity, peers and storage are not touched
+//@   ensures c.ID == old(c.ID) && c.Storage == old(c.Storage) && sameSlice(c.peers, old(c.peers)) && sameSlice(c.learners, old(c.learners)) && c.Applied == old(c.Applied)
+//@   ensures result == nil ==> c.Logger != nil
+//@   modifies c.MaxCommittedSizePerReady, c.Logger, c.MaxInflightMsgs, c.MaxSizePerMsg
+//@ func (r *raft) nodes() []uint64
+//@   trusted sorted copy of the voter ids; read-only
+//@ func (r *raft) learnerNodes() []uint64
+//@   trusted sorted copy of the learner ids; read-only
+//@ extern strings.Join func(elems []string, sep string) string
+//@ func newRaft(c *Config) *raft
+//@   opt autoloops
+//@   requires c != nil && sOK(c.Storage) && ghost(slast, c.Storage) + 1 < 4611686018427387904 && c.Applied <= ghost(hscommit, c.Storage)
+//@   ensures result != nil && result.id == c.ID && result.state == StateFollower
+//@   ensures result.Term == ghost(hsterm, c.Storage) && result.Vote == ghost(hsvote, c.Storage)
+//@   ensures ghost(csvoters, c.Storage) > 0 || ghost(cslearners, c.Storage) > 0 ==> len(result.prs) <= ghost(csvoters, c.Storage) && len(result.learnerPrs) <= ghost(cslearners, c.Storage)
+//@   ensures forall id uint64 :: in(id, result.learnerPrs) ==> !in(id, result.prs)
+//@   ensures result.isLearner <==> in(result.id, result.learnerPrs)
+//@   modifies *
+//@ loop 1
+//@   invariant len(peers) == iter && len(learners) == 0
+//@ loop 2
+//@   invariant len(learners) == iter && len(peers) == len(cs.Groups)
+//@ loop 3
+//@   invariant r != nil && r.prs != nil && r.learnerPrs != nil && r.prs != r.learnerPrs && r.id == c.ID && r.raftLog == raftlog && r.readOnly != nil
+//@   invariant len(r.prs) <= iter && len(r.learnerPrs) == 0 && !r.isLearner && prsOK(r)
+//@ loop 4
+//@   invariant r != nil && r.prs != nil && r.learnerPrs != nil && r.prs != r.learnerPrs && r.id == c.ID && r.raftLog == raftlog && r.readOnly != nil
+//@   invariant len(r.prs) <= len(peers) && len(r.learnerPrs) <= iter && prsOK(r) && lprsOK(r)
+//@   invariant (forall id uint64 :: in(id, r.learnerPrs) ==> !in(id, r.prs)) && (r.isLearner <==> in(r.id, r.learnerPrs))
